@@ -215,6 +215,8 @@ class Walker:
                 self._resolve_drift(pre_refs)
                 if "C01" in self.props:
                     self.check_c01(op, pre, post)
+                if "C15" in self.props:
+                    self.check_c15(op, pre, post)
                 if "C02" in self.props:
                     self.check_c02(op, pre, post)
                 if "C03" in self.props:
@@ -414,6 +416,132 @@ class Walker:
                 ctx.fail(C, f"sequence>max_sequence_duration:{op['op']}", f"{tot} > {msd}")
             if tot > msd - 600:
                 self.stats["near_max_seq"] = 1
+
+    # ------------------------------------------------------------------ C15
+    def check_c15(self, op, pre: View, post: View):
+        ctx = self.ctx
+        if post.parametrized:
+            return
+        o = op["op"]
+        name = self._op_channel(op)
+        if name is None or name not in post.ch or name not in pre.ch:
+            return
+        cv0, cv1 = pre.ch[name], post.ch[name]
+        new = self._new_slots(pre, post, name)
+        obj = cv1.obj
+        if o in ("enable_eom", "modify_eom"):
+            self.stats["eom"] += 1
+            blk = cv1.blocks[-1]
+            req = float(op.get("opt_off", 0.0))
+            self.check_det_off(obj, float(op["amp_on"]), float(op["det_on"]), req, blk[4], name)
+            if abs(blk[2] - float(op["amp_on"])) > 1e-12 or abs(blk[3] - float(op["det_on"])) > 1e-12:
+                ctx.fail("C15.setpoint", "block_setpoint", f"{blk} vs {op}")
+            buf_t = int(obj.eom_config.custom_buffer_time or 2 * obj.rise_time)
+            if cv0.end > 0:
+                if not new:
+                    ctx.fail("C15.buffer", f"{o}:no_buffer", f"{name}: no buffer inserted")
+                    return
+                b = new[-1]
+                if b[2] - b[1] != cv0.adj(buf_t):
+                    ctx.fail("C15.buffer", f"{o}:length",
+                             f"{name}: buffer lasts {b[2]-b[1]}, configured {buf_t} -> {cv0.adj(buf_t)}")
+                lp = cv0.last_pulse()
+                if o == "enable_eom" and lp is not None:
+                    need = lp[2] + min(cv0.fall(lp), int(lp[0].fall_time(obj, in_eom_mode=False)))
+                    if b[1] < need:
+                        ctx.fail("C15.buffer", "enable_eom:before_ramp_down",
+                                 f"{name}: buffer starts {b[1]} < {need}")
+                # detuning during the entry buffer is the new off-detuning
+                det_buf = (float(b[0].detuning.samples.as_array()[0]) if isinstance(b[0], Pulse) else 0.0)
+                amp_buf = (float(np.max(np.abs(b[0].amplitude.samples.as_array()))) if isinstance(b[0], Pulse) else 0.0)
+                if abs(det_buf - blk[4]) > 1e-12 or amp_buf != 0.0:
+                    ctx.fail("C15.buffer", f"{o}:detuning_during_buffer",
+                             f"{name}: buffer detuning {det_buf}, off-detuning {blk[4]}")
+                if blk[0] != b[2]:
+                    ctx.fail("C15.buffer", f"{o}:block_start", f"block starts {blk[0]}, buffer ends {b[2]}")
+            elif new:
+                ctx.fail("C15.buffer", f"{o}:buffer_on_empty_channel", f"{new}")
+        if o == "disable_eom":
+            blk = cv1.blocks[-1]
+            if blk[1] != cv0.end:
+                ctx.fail("C15.buffer", "disable:block_end", f"{blk[1]} != {cv0.end}")
+            # a custom buffer time is "the wait time to enforce during EOM buffers":
+            # its length is what is required; otherwise the exit buffer must
+            # cover the ramp-down of the last real pulse
+            lp = cv0.last_real_pulse()
+            need = cv0.end
+            if lp is not None and not obj.eom_config.custom_buffer_time:
+                need = max(need, lp[2] + min(cv0.fall(lp), int(lp[0].fall_time(obj, in_eom_mode=True)),
+                                             int(lp[0].fall_time(obj, in_eom_mode=False))))
+            if obj.eom_config.custom_buffer_time:
+                need2 = cv0.end + cv0.adj(int(obj.eom_config.custom_buffer_time))
+                if cv1.end != need2:
+                    ctx.fail("C15.buffer", "disable:custom_buffer_length",
+                             f"{name}: ends {cv1.end}, expected {need2}")
+            if cv1.end < need:
+                ctx.fail("C15.buffer", "disable:before_ramp_down", f"{name}: ends {cv1.end} < {need}")
+            for s in new:
+                if isinstance(s[0], Pulse):
+                    ctx.fail("C15.buffer", "disable:pulse_in_exit_buffer", "")
+        if o in ("add_eom", "delay") and cv0.in_eom and new:
+            blk = cv0.blocks[-1]
+            for s in new:
+                if isinstance(s[0], Pulse):
+                    a = np.asarray(s[0].amplitude.samples.as_array(), dtype=float)
+                    d = np.asarray(s[0].detuning.samples.as_array(), dtype=float)
+                    if is_detuned_delay(s[0]):
+                        if np.any(a != 0) or np.any(np.abs(d - blk[4]) > 1e-12):
+                            ctx.fail("C15.square", "idle_detuning!=off_detuning",
+                                     f"{name}: idle det {d[0]} vs off {blk[4]}")
+                    else:
+                        self.stats["eom_pulses"] = self.stats.get("eom_pulses", 0) + 1
+                        if np.any(np.abs(a - blk[2]) > 1e-12) or np.any(np.abs(d - blk[3]) > 1e-12):
+                            ctx.fail("C15.square", "pulse!=setpoint",
+                                     f"{name}: EOM pulse amp {a[0]}..{a[-1]} det {d[0]} vs setpoint {blk[2:4]}")
+                elif s[0] == "delay" and abs(blk[4]) > 1e-12:
+                    ctx.fail("C15.square", "plain_delay_with_nonzero_off_detuning",
+                             f"{name}: idle period without the off-detuning {blk[4]}")
+            if abs(blk[4]) > 0.1 and o == "delay":
+                self.stats["eom_idle"] = self.stats.get("eom_idle", 0) + 1
+
+    def check_det_off(self, obj, amp_on, det_on, requested, chosen, name):
+        """Own light-shift arithmetic from the RydbergEOM documentation."""
+        ctx = self.ctx
+        e = obj.eom_config
+        D = e.intermediate_detuning
+        cb, cr = e.blue_shift_coeff, e.red_shift_coeff
+        lim_red = e.limiting_beam.name == "RED"
+        sf = math.sqrt(cr / cb) if lim_red else math.sqrt(cb / cr)
+        limit = sf * e.max_limiting_amp ** 2 / (2 * D)
+        if amp_on <= limit:
+            base2 = 2 * amp_on * D
+            w_lim, w_other = math.sqrt(base2 / sf), math.sqrt(base2 * sf)
+        else:
+            w_lim, w_other = e.max_limiting_amp, 2 * D * amp_on / e.max_limiting_amp
+        w = {"RED": w_lim if lim_red else w_other, "BLUE": w_other if lim_red else w_lim}
+
+        def ls(on):
+            return sum({"RED": -cr, "BLUE": cb}[b] * w[b] ** 2 for b in on) / (4 * D)
+
+        offset = det_on - ls(("RED", "BLUE"))
+        ctrl = [b.name for b in e.controlled_beams]
+        combos = [(b,) for b in ctrl]
+        if len(ctrl) > 1 and e.multiple_beam_control:
+            combos.append(("RED", "BLUE"))
+        options = [offset + ls(tuple(b for b in ("RED", "BLUE") if b not in off)) for off in combos]
+        tol = 1e-9 * max(1.0, max(abs(x) for x in options))
+        if min(abs(chosen - x) for x in options) > tol:
+            ctx.fail("C15.det_off", "not_an_allowed_option",
+                     f"{name}: chosen off-detuning {chosen}, allowed {options}")
+        best = min(abs(x - requested) for x in options)
+        if abs(chosen - requested) > best + tol:
+            ctx.fail("C15.det_off", "not_closest_to_requested",
+                     f"{name}: requested {requested}, chose {chosen}, options {options}")
+        api = np.asarray(e.detuning_off_options(amp_on, det_on).as_array(), dtype=float)
+        if len(api) != len(options) or np.max(np.abs(np.sort(api) - np.sort(options))) > tol:
+            ctx.fail("C15.det_off", "detuning_off_options", f"{api.tolist()} vs {options}")
+        if len(set(np.round(options, 9))) >= 2:
+            self.stats["det_off_choice"] = self.stats.get("det_off_choice", 0) + 1
 
     # ------------------------------------------------------------------ C02
     def check_c02(self, op, pre: View, post: View, failed: bool = False):
